@@ -167,6 +167,13 @@ func newSUT(p *pki, mode string, rule bool, pw string) *sut {
 		s.plain = freePort()
 		s.srv.SetPort(s.plain)
 	}
+	if mode == "both-badtls" {
+		// both ports enabled, but no server certificate was configured: Start must fail, and Stop must give the plain port back
+		s.plain = freePort()
+		s.srv.SetPort(s.plain)
+		s.secure = freePort()
+		s.srv.SetTLSPort(s.secure)
+	}
 	if mode == "tls" || mode == "both" {
 		s.secure = freePort()
 		s.srv.SetTLSPort(s.secure)
@@ -491,6 +498,42 @@ func modeTLSGate(args []string) {
 					emit(r)
 				}
 			}
+		}
+		// the operator replaces the CA client certificates must chain to, and restarts: from then on the retired CA's
+		// clients are strangers and the new CA's clients are admitted
+		ca2 := filepath.Join(p.dir, "ca-rotated.crt")
+		os.WriteFile(ca2, p.foreignCA.certPEM(), 0o600)
+		if err := s.srv.SetTLSCaCertFile(ca2); err != nil {
+			emit(map[string]any{"error": "rotate: " + err.Error(), "config": cfgName})
+		} else if err := s.srv.Restart(); err != nil {
+			emit(map[string]any{"error": "restart after CA rotation: " + err.Error(), "config": cfgName})
+		} else {
+			try := func(cred string, cert tls.Certificate) {
+				r := gateResult{Config: cfgName + "+rotated-ca", Cred: cred, Fault: "complete", Order: "bad-first", GoodTLS: true, GoodPlain: plainAlive(s.plain)}
+				before := atomic.LoadInt64(&s.executed)
+				raw, err := net.DialTimeout("tcp", addr(s.secure), ioTimeout)
+				if err != nil {
+					r.Note = "dial: " + err.Error()
+				} else {
+					c := tls.Client(raw, p.clientConfig(&cert))
+					c.SetDeadline(time.Now().Add(ioTimeout))
+					if err := c.Handshake(); err == nil {
+						r.Handshake = true
+						if pw != "" {
+							exchange(c, resp("AUTH", pw))
+						}
+						rep, err := exchange(c, resp("WHOAMI"))
+						r.Served = err == nil && strings.HasPrefix(rep, "$")
+					}
+					raw.Close()
+				}
+				time.Sleep(2 * time.Millisecond)
+				r.Executed = atomic.LoadInt64(&s.executed) - before
+				emit(r)
+			}
+			try("retired-ca", p.valid.tlsCert())
+			try("new-ca", p.foreign.tlsCert(p.foreignCA))
+			try("retired-ca", p.validUnderNeutral.tlsCert(p.neutralInter))
 		}
 		if err := s.srv.Stop(); err != nil {
 			emit(map[string]any{"error": "stop: " + err.Error(), "config": cfgName})
@@ -844,7 +887,14 @@ func runLife(p *pki, cfg, seq string) (lifeObs, bool) {
 				o.Steps = append(o.Steps, fmt.Sprintf("S:%v", err == nil))
 				if err == nil {
 					running = true
-					checkServing(tag)
+					if cfg == "both-badtls" {
+						o.Problems = append(o.Problems, tag+": Start returned nil although the TLS port has no certificate")
+					} else {
+						checkServing(tag)
+					}
+				} else if cfg == "both-badtls" {
+					// a failed Start promises nothing about serving; a following Stop must release whatever was opened
+					running = false
 				}
 			case 'X':
 				err := s.srv.Stop()
@@ -973,6 +1023,100 @@ func runLife(p *pki, cfg, seq string) (lifeObs, bool) {
 	}
 }
 
+// ---------------------------------------------------------------- C07: a witness under connection churn and CONFIG SET
+// witness <seconds>: two connections loop CONFIG SET, twelve goroutines connect / PING / close, one long-lived witness connection
+// does PING / SET / GET and must get the exact reply to each within 3 s; finally Stop must return.
+func modeWitness(args []string) {
+	secs := 3
+	if len(args) > 0 {
+		secs, _ = strconv.Atoi(args[0])
+	}
+	p := newPKI()
+	defer p.cleanup()
+	s, err := startSUT(p, "plain", false, "")
+	if err != nil {
+		fmt.Fprintln(os.Stderr, "start:", err)
+		os.Exit(3)
+	}
+	deadline := time.Now().Add(time.Duration(secs) * time.Second)
+	var wg sync.WaitGroup
+	var cfgSets, churns, witnessOK int64
+	var failMu sync.Mutex
+	firstFail := ""
+	fail := func(msg string) {
+		failMu.Lock()
+		if firstFail == "" {
+			firstFail = msg
+		}
+		failMu.Unlock()
+	}
+	for w := 0; w < 2; w++ {
+		wg.Add(1)
+		go func(w int) {
+			defer wg.Done()
+			c, err := net.DialTimeout("tcp", addr(s.plain), ioTimeout)
+			if err != nil {
+				return
+			}
+			defer c.Close()
+			for i := 0; time.Now().Before(deadline); i++ {
+				if _, err := exchange(c, resp("CONFIG", "SET", "maxclients", strconv.Itoa(i))); err != nil {
+					return
+				}
+				atomic.AddInt64(&cfgSets, 1)
+			}
+		}(w)
+	}
+	for w := 0; w < 12; w++ {
+		wg.Add(1)
+		go func() {
+			defer wg.Done()
+			for time.Now().Before(deadline) {
+				c, err := net.DialTimeout("tcp", addr(s.plain), ioTimeout)
+				if err != nil {
+					continue
+				}
+				exchange(c, resp("PING"))
+				c.Close()
+				atomic.AddInt64(&churns, 1)
+			}
+		}()
+	}
+	wg.Add(1)
+	go func() {
+		defer wg.Done()
+		c, err := net.DialTimeout("tcp", addr(s.plain), ioTimeout)
+		if err != nil {
+			fail("witness cannot connect: " + err.Error())
+			return
+		}
+		defer c.Close()
+		for i := 0; time.Now().Before(deadline); i++ {
+			v := "v" + strconv.Itoa(i)
+			for _, step := range [][2]string{{resp("PING"), "+PONG\r\n"}, {resp("SET", "wit", v), "+OK\r\n"}, {resp("GET", "wit"), fmt.Sprintf("$%d\r\n%s\r\n", len(v), v)}} {
+				rep, err := exchange(c, step[0])
+				if err != nil || rep != step[1] {
+					fail(fmt.Sprintf("witness request %q: reply %q err %v", step[0], rep, err))
+					return
+				}
+			}
+			atomic.AddInt64(&witnessOK, 1)
+			time.Sleep(time.Millisecond)
+		}
+	}()
+	wg.Wait()
+	stopped := make(chan error, 1)
+	go func() { stopped <- s.srv.Stop() }()
+	stopRet := true
+	select {
+	case <-stopped:
+	case <-time.After(6 * time.Second):
+		stopRet = false
+	}
+	emit(map[string]any{"witness_rounds": atomic.LoadInt64(&witnessOK), "config_sets": atomic.LoadInt64(&cfgSets), "churn": atomic.LoadInt64(&churns),
+		"first_failure": firstFail, "stop_returned": stopRet, "seconds": secs})
+}
+
 // ---------------------------------------------------------------- C14: concurrent workload for the race detector
 // racestress <seconds> <clients> <seed>: clients mix every command family with connection churn, CONFIG SET/GET, registry
 // enumeration (Conns / ConnByUUID / Close of an enumerated connection) and Stop / Restart.  Built with -race; the race
@@ -1001,7 +1145,8 @@ func modeRaceStress(args []string) {
 	var ops int64
 	cmds := [][]string{{"PING"}, {"SET", "k", "v"}, {"GET", "k"}, {"INCR", "n"}, {"CONFIG", "SET", "maxmemory", "1"}, {"CONFIG", "GET", "maxmemory", "port"}, {"SELECT", "1"},
 		{"RPUSH", "l", "a"}, {"LPOP", "l"}, {"SADD", "s", "a"}, {"SMEMBERS", "s"}, {"ZADD", "z", "1", "a"}, {"ZRANGE", "z", "0", "-1"}, {"HSET", "h", "f", "v"}, {"HGETALL", "h"},
-		{"MSET", "a", "1", "b", "2"}, {"MGET", "a", "b"}, {"KEYS", "*"}, {"DEL", "k"}, {"ECHO", "x"}, {"STRLEN", "k"}, {"APPEND", "k", "x"}, {"WHOAMI"}, {"AUTH", "x"}, {"AUTH", "u", "x"}}
+		{"MSET", "a", "1", "b", "2"}, {"MGET", "a", "b"}, {"KEYS", "*"}, {"DEL", "k"}, {"ECHO", "x"}, {"STRLEN", "k"}, {"APPEND", "k", "x"}, {"WHOAMI"}, {"AUTH", "x"}, {"AUTH", "u", "x"},
+		{"SET", "bigk", strings.Repeat("x", 70000)}, {"GET", "bigk"}, {"SET", "bigk2", strings.Repeat("y", 140000), "EX", "1000"}, {"ECHO", strings.Repeat("z", 66000)}}
 	for w := 0; w < clients; w++ {
 		wg.Add(1)
 		go func(w int) {
